@@ -33,7 +33,7 @@ func init() {
 		Assumptions: []string{"engine-level read results (Transaction.Find) are documented to return the stored documents and are not judged", "strings are immutable and ignored by the alias walker"},
 		Batches:     func(tier string) int { return 8 },
 		Require: func(tier string) map[string]int64 {
-			return map[string]int64{"calls": 1200, "alias_checks": 1200, "read_only_calls_checked": 100, "regions_caller": 5000, "regions_engine": 50000, "scribbled_values": 2000, "results_with_containers": 300, "id_results_checked": 200, "concurrent_scribbles": 300}
+			return map[string]int64{"calls": 1200, "alias_checks": 1200, "read_only_calls_checked": 100, "repeated_calls_after_scribble": 40, "regions_caller": 5000, "regions_engine": 50000, "scribbled_values": 2000, "results_with_containers": 300, "id_results_checked": 200, "concurrent_scribbles": 300}
 		},
 		Run: runC17,
 	})
@@ -145,6 +145,11 @@ type c17Case struct {
 	pre     mon.CatDump
 	preRead string
 	early   lungo.ICursor
+	// reobserve repeats calls whose results were handed out already (e.g. the
+	// resume token of a stream that has not advanced): overwriting the values
+	// handed out earlier must not change what they return
+	reobserve func() string
+	cleanup   func()
 }
 
 // c17ReadOnly lists the calls that must leave the database bit-identical.
@@ -220,6 +225,13 @@ func (k *c17Case) judge(before [][]byte) {
 	// (c) scribble and re-observe
 	dump0 := exactDump(cat)
 	read0 := dumpColl(k.ctx, k.coll)
+	again0 := ""
+	if k.reobserve != nil {
+		again0 = k.reobserve()
+	}
+	if k.cleanup != nil {
+		defer k.cleanup()
+	}
 	var wg sync.WaitGroup
 	// (d) concurrent scribbler and reader under the race detector
 	wg.Add(2)
@@ -250,6 +262,13 @@ func (k *c17Case) judge(before [][]byte) {
 	if d := dump0.Diff(exactDump(k.engine.Catalog())); d != "" {
 		c.Violate("alias:scribble-changed-state:"+k.name, fmt.Sprintf("overwriting the arguments and results of %s changed the database: %s", k.name, d), k.witness(nil))
 		return
+	}
+	if k.reobserve != nil {
+		c.Count("repeated_calls_after_scribble", 1)
+		if again1 := k.reobserve(); again0 != again1 {
+			c.Violate("alias:scribble-changed-repeated-call:"+k.name, fmt.Sprintf("overwriting the values handed back by %s changed what the same call returns when repeated", k.name), k.witness(map[string]interface{}{"before": again0, "after": again1}))
+			return
+		}
 	}
 	if read1 := dumpColl(k.ctx, k.coll); read0 != read1 {
 		c.Violate("alias:scribble-changed-read:"+k.name, fmt.Sprintf("overwriting the arguments and results of %s changed the result of a later read", k.name), k.witness(map[string]interface{}{"before": read0, "after": read1}))
@@ -631,7 +650,21 @@ func c17Call(k *c17Case, idx int) {
 				stream.Decode(&evm)
 				k.results = append(k.results, ev, evm, []byte(stream.ResumeToken()))
 			}
-			stream.Close(ctx)
+			// the stream stays open while the judge overwrites what it handed out:
+			// its token, asked for again, must be unchanged and still resumable
+			k.reobserve = func() string {
+				tok := stream.ResumeToken()
+				out := fmt.Sprintf("token=%x", []byte(tok))
+				if tok != nil {
+					s2, err := coll.Watch(ctx, bson.A{}, options.ChangeStream().SetResumeAfter(tok))
+					out += fmt.Sprintf(" resumable=%v", err == nil)
+					if err == nil {
+						s2.Close(ctx)
+					}
+				}
+				return out
+			}
+			k.cleanup = func() { stream.Close(ctx) }
 		}
 	}
 	if before == nil {
